@@ -584,11 +584,13 @@ ORDER_CELLS = {
     'P6': '=COUNTIF(A1:A9,A6)', 'P7': '=COUNTIF(A1:A9,"1")', 'P8': '=COUNTIF(A1:A9,"<>0")',
     # rounding family next to operands that cannot be rounded (overflowed product, more digits than the decimal context holds):
     # whatever those do, the neighbours keep their values in every order
+    # a formula whose value is an array keeps it to itself: the cells next to it stay what they are
+    'R1': '=A1:A3', 'R5': '=SUM(R2:R3)', 'R6': '=R2+10', 'R7': '=ISBLANK(R2)', 'T4': '=A1:B3', 'T9': '=U5+1',
     'A10': 1e308, 'Q1': '=A10*10', 'Q2': '=ROUNDDOWN(Q1,0)', 'Q3': '=ROUNDUP(Q1,2)', 'Q4': '=CEILING(7.3,0.7)', 'Q5': '=CEILING(1.15,0.1)',
     'Q6': '=ROUND(2.5,0)', 'Q7': '=ROUNDDOWN(12345678901234567890,9)', 'Q8': '=CEILING(-2.5,-2)+FLOOR(7.3,0.7)', 'Q9': '=INT(-Q1)', 'Q10': '=ROUND(-7.45,1)',
 }
 _ORDER_ADDRS = ['B1', 'C1', 'D1', 'E1', 'F1', 'G1', 'H1', 'I1', 'J1', 'K1', 'L1', 'M1', 'N1', 'O1', 'P1', 'P2', 'P3', 'P4', 'P5', 'P6', 'P7', 'P8',
-                'Q1', 'Q2', 'Q3', 'Q4', 'Q5', 'Q6', 'Q7', 'Q8', 'Q9', 'Q10']
+                'Q1', 'Q2', 'Q3', 'Q4', 'Q5', 'Q6', 'Q7', 'Q8', 'Q9', 'Q10', 'R1', 'R5', 'R6', 'R7', 'T4', 'T9']
 
 
 def rule_6(ctx):
